@@ -25,6 +25,7 @@ import RioModel.Proofs.TreeUnique
 import RioModel.Proofs.TreeDistinct
 import RioModel.Proofs.TreeIter
 import RioModel.Proofs.TreeModify
+import RioModel.Proofs.TreeLookup
 import RioModel.Proofs.RegexTok
 set_option linter.unusedSimpArgs false
 set_option linter.unusedVariables false
@@ -189,6 +190,39 @@ theorem inv_modify_at {ic : Bool} (t : Item ι V) (p : List Char) (g : ι → V 
 
 theorem contents_modify_at {ic : Bool} (t : Item ι V) (p : List Char) (g : ι → V → V) (hinv : Inv ic t) :
     (t.modifyAt p g).contents = refModify t.contents p g := contents_modifyAt t p g hinv
+
+/-! ### The tree as a map (pattern, id) ↦ value (the view the router layers use) -/
+
+/-- `insert(p, id, v)` is a map update. -/
+theorem lookup_insert {ic : Bool} (t : Item ι V) (p : List Char) (id : ι) (v : V) (hinv : Inv ic t)
+    (p' : List Char) (id' : ι) :
+    lookupE (t.insert p id v).contents p' id' =
+      if p' = p ∧ id' = id then some v else lookupE t.contents p' id' :=
+  Tree.lookup_insert t p id v hinv p' id'
+
+/-- `retain(f)` keeps the entries `f` keeps, with the values `f` left in them. -/
+theorem lookup_retain {ic : Bool} (t : Item ι V) (f : ι → V → Option V) (hinv : Inv ic t)
+    (p : List Char) (id : ι) :
+    lookupE (t.retain f).contents p id = (lookupE t.contents p id).bind (f id) :=
+  Tree.lookup_retain t f hinv p id
+
+/-- `get_mut(p0)` + update changes exactly the values under pattern `p0`. -/
+theorem lookup_modify_at {ic : Bool} (t : Item ι V) (p0 : List Char) (g : ι → V → V) (hinv : Inv ic t)
+    (p : List Char) (id : ι) :
+    lookupE (t.modifyAt p0 g).contents p id =
+      (lookupE t.contents p id).map fun v => if p = p0 then g id v else v :=
+  Tree.lookup_modifyAt t p0 g hinv p id
+
+/-- `remove(id0)` deletes the entry of that id (ids distinct). -/
+theorem lookup_remove (t : Item ι V) (id0 : ι) (hnd : IdNodup t.contents) (p : List Char) (id : ι) :
+    lookupE (t.remove id0).1.contents p id = if id = id0 then none else lookupE t.contents p id :=
+  Tree.lookup_remove t id0 hnd p id
+
+/-- `find` as membership. -/
+theorem mem_find_iff {E : Engine} {Good : List Char → Prop} (hPS : PrefixSound E Good) {ic : Bool}
+    (t : Item ι V) (hinv : Inv ic t) (hdom : InDomain Good t) (s : List Char) (v : V) :
+    v ∈ t.find E s ↔ ∃ e ∈ t.contents, E.full ic e.pat s = true ∧ e.val = v :=
+  Tree.mem_find_iff hPS t hinv hdom s v
 
 /-! ### Lifted over arbitrary histories -/
 
